@@ -695,3 +695,38 @@ silent("c08-single-call-phi-args", "C08",
      (VEST, C08_OLD, "	lockEnd, vestingEnd := vestingPool.LockEnd, vestingPool.LockEnd\n	if restartVesting {\n		lockEnd = ctx.BlockTime().Add(vt.LockupPeriod)\n		vestingEnd = lockEnd.Add(vt.VestingPeriod)\n	}\n	err = k.newVestingAccount(ctx, toAccAddress, amount, vt.Free, lockEnd, vestingEnd)\n"))
 fire("c08-single-call-swapped-flag", "C08", ["C08.schedule"],
      (VEST, C08_OLD, "	lockEnd, vestingEnd := vestingPool.LockEnd, vestingPool.LockEnd\n	if !restartVesting {\n		lockEnd = ctx.BlockTime().Add(vt.LockupPeriod)\n		vestingEnd = lockEnd.Add(vt.VestingPeriod)\n	}\n	err = k.newVestingAccount(ctx, toAccAddress, amount, vt.Free, lockEnd, vestingEnd)\n"))
+
+# ---------------- units of measure (C02.units, C19.units) ----------------
+fire("c02-units-numerator-in-seconds", "C02", ["C02.units"],
+     (MINTYPES, "	passedTime := blockTime.UnixMilli() - startTime.UnixMilli()", "	passedTime := blockTime.Unix() - startTime.Unix()"))
+fire("c02-units-mixed-difference", "C02", ["C02.units"],
+     (MINTYPES, "	period := endTime.UnixMilli() - startTime.UnixMilli()", "	period := endTime.UnixMilli() - startTime.Unix()"))
+fire("c02-units-step-in-ms", "C02", ["C02.units"],
+     (MINTYPES, "	passedTime := int64(now.Sub(startTime))\n	epoch := int64(m.StepDuration)", "	passedTime := int64(now.Sub(startTime))\n	epoch := m.StepDuration.Milliseconds()"))
+silent("c02-units-named-operands", "C02",
+     (MINTYPES, "	passedTime := blockTime.UnixMilli() - startTime.UnixMilli()", "	nowMs, startMs := blockTime.UnixMilli(), startTime.UnixMilli()\n	passedTime := nowMs - startMs"))
+fire("c19-units-period-in-ms", "C19", ["C19.units"],
+     (MINTYPES, "QuoInt64(int64(periodDuration))", "QuoInt64(periodDuration.Milliseconds())"))
+fire("c19-units-step-in-seconds", "C19", ["C19.units"],
+     (MINTYPES, "	mintedYearly := epochAmount.MulInt64(int64(year)).QuoInt64(epoch)", "	mintedYearly := epochAmount.MulInt64(int64(year)).QuoInt64(int64(m.StepDuration.Seconds()))"))
+silent("c19-units-all-in-ms", "C19",
+     (MINTYPES, "	mintedYearly := sdk.NewDecFromInt(m.Amount).MulInt64(int64(year)).QuoInt64(int64(periodDuration))", "	mintedYearly := sdk.NewDecFromInt(m.Amount).MulInt64(year.Milliseconds()).QuoInt64(periodDuration.Milliseconds())"))
+
+# ---------------- round-2 seeded-derived ----------------
+ABCI_M = "x/cfeminter/abci.go"
+fire("c01-mint-error-swallowed-in-beginblock", "C01", ["C01.abort"],
+     (ABCI_M, "		k.Logger(ctx).Error(\"mint error\", \"error\", err.Error())\n		panic(err)", "		k.Logger(ctx).Error(\"mint error - minting skipped in this block\", \"error\", err.Error())\n		amount = sdk.ZeroInt()"))
+fire("c01-forward-error-logged-only", "C01", ["C01.abort"],
+     (MINT, "	err = k.SendMintedCoins(ctx, coins)\n	if err != nil {", "	err = k.SendMintedCoins(ctx, coins)\n	if err != nil && false {"))
+fire("c02-exp-fast-path-above-clamp", "C02", ["C02.boundaries"],
+     (MINTYPES, "func (m *ExponentialStepMinting) AmountToMint(logger log.Logger, startTime time.Time, endTime *time.Time, blockTime time.Time) sdk.Dec {\n	now := blockTime", "func (m *ExponentialStepMinting) AmountToMint(logger log.Logger, startTime time.Time, endTime *time.Time, blockTime time.Time) sdk.Dec {\n	if m.AmountMultiplier.Equal(sdk.OneDec()) {\n		return sdk.NewDecFromInt(m.Amount).MulInt64(int64(blockTime.Sub(startTime))).QuoInt64(int64(m.StepDuration))\n	}\n	now := blockTime"))
+silent("c02-exp-fast-path-below-clamp", "C02",
+     (MINTYPES, "	passedTime := int64(now.Sub(startTime))\n	epoch := int64(m.StepDuration)\n	numOfPassedEpochs := passedTime / epoch\n\n	amountToMint := sdk.ZeroDec()", "	passedTime := int64(now.Sub(startTime))\n	epoch := int64(m.StepDuration)\n	if m.AmountMultiplier.Equal(sdk.OneDec()) {\n		return sdk.NewDecFromInt(m.Amount).MulInt64(passedTime).QuoInt64(epoch)\n	}\n	numOfPassedEpochs := passedTime / epoch\n\n	amountToMint := sdk.ZeroDec()"))
+fire("c03-burn-lookup-by-empty-account", ["C03", "C04"], ["C03.burnkey", "C04.key"],
+     (DISTR, "func findBurnState(states *[]types.State) int {\n	for pos, state := range *states {\n		if state.Burn {\n			return pos\n		}\n	}\n	return -1\n}", "var burnAccount = types.Account{}\n\nfunc findBurnState(states *[]types.State) int {\n	return findAccountState(states, &burnAccount)\n}"))
+fire("c03-burn-lookup-skips-nil-account", ["C03", "C04"], ["C03.burnkey", "C04.key"],
+     (DISTR, "	for pos, state := range *states {\n		if state.Burn {\n			return pos\n		}\n	}\n	return -1", "	for pos, state := range *states {\n		if state.Account == nil {\n			continue\n		}\n		if state.Burn {\n			return pos\n		}\n	}\n	return -1"))
+silent("c03-burn-lookup-by-index", ["C03", "C04"],
+     (DISTR, "	for pos, state := range *states {\n		if state.Burn {\n			return pos\n		}\n	}\n	return -1", "	for pos := range *states {\n		if (*states)[pos].Burn {\n			return pos\n		}\n	}\n	return -1"))
+fire("c04-payout-dispatch-on-account-nil", ["C04", "C12"], ["C04.sameshape", "C12.sameshape"],
+     (DISTR, "		if types.InternalAccount != state.Account.GetType() && checkIfAnyCoinIsGTE1(state.Remains) {", "		if account := state.Account; account != nil && types.InternalAccount != account.Type && checkIfAnyCoinIsGTE1(state.Remains) {"))
